@@ -55,6 +55,28 @@ func Generate(o Options) Package {
 	pieces = append(pieces, piece{"recsum", "func recsum(n byte, acc uint64) uint64 {\n\tif n == 0 {\n\t\treturn acc\n\t}\n\treturn recsum(n-1, acc+uint64(n)*uint64(n))\n}\n"})
 	pieces = append(pieces, piece{"evenq", "func evenq(n uint64) bool {\n\tif n == 0 {\n\t\treturn true\n\t}\n\treturn oddq(n - 1)\n}\n"})
 	pieces = append(pieces, piece{"oddq", "func oddq(n uint64) bool {\n\tif n == 0 {\n\t\treturn false\n\t}\n\treturn evenq(n - 1)\n}\n"})
+	// a fixed "zoo" of declarations that the statement generator uses: a named integer type with a self-recursive
+	// method and users that reach the type only through *p, a constant spec with two names, an interface with two
+	// implementations, a struct with a slice field, a function returning a slice
+	pieces = append(pieces, piece{"NT0", "type NT0 uint64\n"})
+	pieces = append(pieces, piece{"NT0.halvings", "func (n NT0) halvings() uint64 {\n\tif n == 0 {\n\t\treturn 0\n\t}\n\treturn (n / 2).halvings() + 1\n}\n"})
+	pieces = append(pieces, piece{"ntBoth", "func ntBoth(p *NT0) uint64 {\n\tntBump(p)\n\treturn ntLoad(p) + 1\n}\n"})
+	pieces = append(pieces, piece{"ntBump", "func ntBump(p *NT0) {\n\t*p = *p + 1\n}\n"})
+	pieces = append(pieces, piece{"ntLoad", "func ntLoad(p *NT0) uint64 {\n\treturn uint64(*p)\n}\n"})
+	pieces = append(pieces, piece{"KA", fmt.Sprintf("const KA, KB uint64 = %s, %s\n", g.lit(U64), g.lit(U64))})
+	pieces = append(pieces, piece{"useKB", "func useKB(x uint64) uint64 {\n\treturn KB ^ x\n}\n"})
+	pieces = append(pieces, piece{"useKA", "func useKA(x uint64) uint64 {\n\treturn KA + x\n}\n"})
+	pieces = append(pieces, piece{"Shape", "type Shape interface {\n\tarea() uint64\n\tscale(k uint64) uint64\n}\n"})
+	pieces = append(pieces, piece{"Sq", "type Sq struct {\n\tw uint64\n}\n"})
+	pieces = append(pieces, piece{"Sq.area", "func (s Sq) area() uint64 {\n\treturn s.w * s.w\n}\n"})
+	pieces = append(pieces, piece{"Sq.scale", "func (s Sq) scale(k uint64) uint64 {\n\treturn s.w * k\n}\n"})
+	pieces = append(pieces, piece{"Rc", "type Rc struct {\n\tw uint64\n\th uint64\n}\n"})
+	pieces = append(pieces, piece{"Rc.area", "func (r Rc) area() uint64 {\n\treturn r.w * r.h\n}\n"})
+	pieces = append(pieces, piece{"Rc.scale", "func (r Rc) scale(k uint64) uint64 {\n\treturn (r.w + r.h) * k\n}\n"})
+	pieces = append(pieces, piece{"measure", "func measure(s Shape) uint64 {\n\treturn s.area() + s.scale(3)\n}\n"})
+	pieces = append(pieces, piece{"Bag", "type Bag struct {\n\titems []uint64\n\tn uint64\n}\n"})
+	pieces = append(pieces, piece{"mkItems", "func mkItems(n uint64, v uint64) []uint64 {\n\ts := make([]uint64, n)\n\tfor i := uint64(0); i < n; i++ {\n\t\ts[i] = v + i\n\t}\n\treturn s\n}\n"})
+	pieces = append(pieces, piece{"fmt2", "func fmt2(s string, x uint64) (uint64, string) {\n\treturn uint64(len(s)) + x, s + \"!\"\n}\n"})
 	g.funcs = append(g.funcs, FuncSig{Name: "recsum", Params: []Var{{Name: "n", T: U8}, {Name: "acc", T: U64}}, Results: []Ty{U64}, Pure: false})
 	// functions
 	for i := 0; i < o.Funcs; i++ {
